@@ -122,6 +122,35 @@ Proof. exact send_bytes. Qed.
 Theorem C01_narrowed_are_fids : forallb narrowed_ok gen_narrowed = true.
 Proof. exact narrowed_are_fids. Qed.
 
+(** Stream facts (also what C02's resynchronisation rests on).  Whenever recv reports anything but
+    a connection error it has consumed exactly the bytes its size field announces, and size is
+    within [7, min(msize, 4 MiB)]: the next frame starts right after, also after a rejected or
+    unknown message. *)
+Theorem C01_recv_consumes_size : forall msize tbl s,
+  match recv msize tbl s with
+  | RConnErr => True
+  | RUnknown _ rest | RInvalid rest | ROk _ _ _ rest =>
+      exists size r, le_dec 4 s = Some (size, r) /\ header_length <= size /\ size <= msize /\ size <= maximum_length /\
+                     rest = skipn (N.to_nat size) s
+  end.
+Proof. exact recv_consumes_size. Qed.
+Print Assumptions C01_recv_consumes_size.
+
+(** A frame is judged on its own bytes: what follows it in the stream only becomes the unread rest. *)
+Theorem C01_recv_ignores_following : forall msize tbl s e,
+  match recv msize tbl s with
+  | RConnErr => True
+  | RUnknown tag rest => exists rest', recv msize tbl (s ++ e) = RUnknown tag rest'
+  | RInvalid rest => exists rest', recv msize tbl (s ++ e) = RInvalid rest'
+  | ROk tag typ mv rest => recv msize tbl (s ++ e) = ROk tag typ mv (rest ++ e)
+  end.
+Proof. exact recv_ignores_following. Qed.
+Print Assumptions C01_recv_ignores_following.
+
+(** decoders only move forward: the unread rest is a suffix of the input *)
+Theorem C01_decode_reads_forward : forall l bs vs r, dec_fields l bs = Some (vs, r) -> exists used, bs = used ++ r.
+Proof. exact dec_fields_suffix. Qed.
+
 (** outside the quantifier, for the record: a 65536-byte string is written with length 0 *)
 Theorem C01_long_string_wraps_recorded :
   exists bs, len bs = 65536 /\
